@@ -45,6 +45,11 @@ static int (*real_mkdirat)(int, const char *, mode_t);
 static int (*real_close)(int);
 static int (*real_fclose)(FILE *);
 static size_t (*real_fwrite)(const void *, size_t, size_t, FILE *);
+static int (*real_rename)(const char *, const char *);
+static int (*real_renameat)(int, const char *, int, const char *);
+static int (*real_renameat2)(int, const char *, int, const char *, unsigned int);
+static int (*real_link)(const char *, const char *);
+static int (*real_linkat)(int, const char *, int, const char *, int);
 
 static void init(void)
 {
@@ -63,6 +68,11 @@ static void init(void)
     real_close = dlsym(RTLD_NEXT, "close");
     real_fclose = dlsym(RTLD_NEXT, "fclose");
     real_fwrite = dlsym(RTLD_NEXT, "fwrite");
+    real_rename = dlsym(RTLD_NEXT, "rename");
+    real_renameat = dlsym(RTLD_NEXT, "renameat");
+    real_renameat2 = dlsym(RTLD_NEXT, "renameat2");
+    real_link = dlsym(RTLD_NEXT, "link");
+    real_linkat = dlsym(RTLD_NEXT, "linkat");
     const char *s;
     if ((s = getenv("FI_FAIL_AT"))) fail_at = atol(s);
     if ((s = getenv("FI_ERRNO"))) fail_errno = atoi(s);
@@ -119,6 +129,43 @@ int mkdirat(int dfd, const char *path, mode_t m)
     init();
     if (under_root(path) && tick("mkdirat", path)) { errno = fail_errno; return -1; }
     return real_mkdirat(dfd, path, m);
+}
+
+/* calls that put a finished file under its final name (write-to-temporary-then-rename schemes): output I/O as well */
+int rename(const char *o, const char *n)
+{
+    init();
+    if ((under_root(n) || under_root(o)) && tick("rename", n)) { errno = fail_errno; return -1; }
+    return real_rename(o, n);
+}
+
+int renameat(int od, const char *o, int nd, const char *n)
+{
+    init();
+    if ((under_root(n) || under_root(o)) && tick("rename", n)) { errno = fail_errno; return -1; }
+    return real_renameat(od, o, nd, n);
+}
+
+int renameat2(int od, const char *o, int nd, const char *n, unsigned int fl)
+{
+    init();
+    if ((under_root(n) || under_root(o)) && tick("rename", n)) { errno = fail_errno; return -1; }
+    if (!real_renameat2) { errno = ENOSYS; return -1; }
+    return real_renameat2(od, o, nd, n, fl);
+}
+
+int link(const char *o, const char *n)
+{
+    init();
+    if ((under_root(n) || under_root(o)) && tick("link", n)) { errno = fail_errno; return -1; }
+    return real_link(o, n);
+}
+
+int linkat(int od, const char *o, int nd, const char *n, int fl)
+{
+    init();
+    if ((under_root(n) || under_root(o)) && tick("link", n)) { errno = fail_errno; return -1; }
+    return real_linkat(od, o, nd, n, fl);
 }
 
 #define OPEN_BODY(REAL, ...)                                              \
